@@ -44,11 +44,11 @@ type c02Named string // a defined string type (not the exact type string)
 func taintContext(variant int) pongo2.Context {
 	nameP := taint("pname")
 	return pongo2.Context{
-		"name":      taint("name"),
-		"n":         []int{3, 0, 7, -2}[variant%4],
-		"zero":      0,
-		"flag":      variant%2 == 0,
-		"ratio":     2.5,
+		"name":  taint("name"),
+		"n":     []int{3, 0, 7, -2}[variant%4],
+		"zero":  0,
+		"flag":  variant%2 == 0,
+		"ratio": 2.5,
 		// URL- and mail-shaped text, so that urlize / urlizetrunc take their link-building paths
 		"title":     taint("title") + " two words http://example.com/a?b=1&c=" + taint("url") + " www.example.org/x admin@example.com",
 		"empty":     "",
